@@ -307,3 +307,241 @@ Proof.
     destruct (IHops g1 l2 ys A1 E2) as (B1 & B2 & B3).
     destruct (m_run g1 ops) as [g2 zs]. cbn [fst snd] in *. inversion H; subst. auto.
 Qed.
+
+(* ================================================================================================== *)
+(** * Vgetid iteration visits every key of the table exactly once *)
+
+Lemma pos_of_app : forall A (pre : list (Z * A)) k v post i, ~ In k (keys pre) ->
+  pos_of k (pre ++ (k, v) :: post) i = Some (i + length pre)%nat.
+Proof.
+  induction pre as [|[k' v'] pre]; intros; simpl.
+  - rewrite Z.eqb_refl. f_equal. lia.
+  - simpl in H. destruct (k =? k') eqn:E; [apply Z.eqb_eq in E; subst; tauto|].
+    rewrite IHpre by tauto. f_equal. lia.
+Qed.
+
+Lemma m_getid_at : forall A (pre : list (Z * A)) k v post, ~ In k (keys pre) -> 0 <= k ->
+  m_getid (pre ++ (k, v) :: post) k = match post with [] => None | (k2, _) :: _ => Some k2 end.
+Proof.
+  intros. unfold m_getid.
+  replace (k <? -1) with false by (symmetry; apply Z.ltb_ge; lia).
+  replace (k =? -1) with false by (symmetry; apply Z.eqb_neq; lia).
+  rewrite pos_of_app by auto. rewrite Nat.add_0_l, app_length.
+  destruct post as [|[k2 v2] post].
+  - destruct (Nat.eqb_spec (S (length pre)) (length pre + length [(k, v)])); [reflexivity|simpl in n; lia].
+  - destruct (Nat.eqb_spec (S (length pre)) (length pre + length ((k, v) :: (k2, v2) :: post))); [simpl in e; lia|].
+    replace (S (length pre)) with (length (pre ++ [(k, v)])) by (rewrite app_length; simpl; lia).
+    replace (pre ++ (k, v) :: (k2, v2) :: post) with ((pre ++ [(k, v)]) ++ (k2, v2) :: post)
+      by (rewrite <- app_assoc; reflexivity).
+    rewrite nth_error_app2 by lia. rewrite Nat.sub_diag. reflexivity.
+Qed.
+
+Lemma iter_ids_from : forall A (post pre : list (Z * A)) k v fuel,
+  NoDup (keys (pre ++ (k, v) :: post)) -> Forall (fun x => 0 <= x) (keys (pre ++ (k, v) :: post)) ->
+  (length post < fuel)%nat ->
+  iter_ids (pre ++ (k, v) :: post) k fuel = keys post.
+Proof.
+  induction post as [|[k2 v2] post]; intros pre k v fuel ND NN F; destruct fuel; try (simpl in F; lia).
+  - cbn [iter_ids]. rewrite m_getid_at.
+    + reflexivity.
+    + unfold keys in ND. rewrite map_app in ND. apply NoDup_remove_2 in ND. intro. apply ND. apply in_or_app. auto.
+    + unfold keys in NN. rewrite map_app in NN. apply Forall_app in NN as [_ NN]. inversion NN; auto.
+  - cbn [iter_ids]. rewrite m_getid_at.
+    + cbn [keys map fst]. f_equal.
+      replace (pre ++ (k, v) :: (k2, v2) :: post) with ((pre ++ [(k, v)]) ++ (k2, v2) :: post) in *
+        by (rewrite <- app_assoc; reflexivity).
+      apply IHpost; auto. simpl in F. lia.
+    + unfold keys in ND. rewrite map_app in ND. apply NoDup_remove_2 in ND. intro. apply ND. apply in_or_app. auto.
+    + unfold keys in NN. rewrite map_app in NN. apply Forall_app in NN as [_ NN]. inversion NN; auto.
+Qed.
+
+Lemma all_ids_keys : forall A (t : list (Z * A)), NoDup (keys t) -> Forall (fun x => 0 <= x) (keys t) ->
+  all_ids t = keys t.
+Proof.
+  intros A t ND NN. unfold all_ids. destruct t as [|[k v] post]; [reflexivity|].
+  cbn [iter_ids]. change (m_getid ((k, v) :: post) (-1)) with (Some k).
+  cbn [keys map fst]. f_equal. apply (iter_ids_from A post [] k v); auto.
+Qed.
+
+(* ================================================================================================== *)
+(** * The DFTAG_VG record: vunpackvg (vpackvg g) gives g back *)
+
+Definition is_u16 (z : Z) : Prop := 0 <= z <= 65535.
+Definition is_char (b : Z) : Prop := 1 <= b <= 255.
+
+Lemma dec16_enc16 : forall v r, is_u16 v -> dec16 (enc16 v ++ r) = Some (v, r).
+Proof.
+  intros v r [A B]. unfold enc16, dec16. cbn [app]. f_equal. f_equal.
+  rewrite (Z.mod_small (v / 256)) by (split; [apply Z.div_pos; lia | apply Z.div_lt_upper_bound; lia]).
+  pose proof (Z.div_mod v 256 ltac:(lia)). lia.
+Qed.
+
+Lemma dec32_enc32 : forall v r, 0 <= v < 4294967296 -> dec32 (enc32 v ++ r) = Some (v, r).
+Proof.
+  intros v r [A B]. unfold enc32, dec32. cbn [app]. f_equal. f_equal.
+  pose proof (Z.div_mod v 256 ltac:(lia)) as D1.
+  pose proof (Z.div_mod (v / 256) 256 ltac:(lia)) as D2.
+  pose proof (Z.div_mod (v / 256 / 256) 256 ltac:(lia)) as D3.
+  assert (E2 : v / 65536 = v / 256 / 256) by (rewrite Z.div_div by lia; reflexivity).
+  assert (E3 : v / 16777216 = v / 256 / 256 / 256) by (rewrite !Z.div_div by lia; reflexivity).
+  rewrite E2, E3.
+  assert (0 <= v / 256 / 256 / 256 < 256).
+  { split; [repeat apply Z.div_pos; lia|]. repeat apply Z.div_lt_upper_bound; lia. }
+  rewrite (Z.mod_small (v / 256 / 256 / 256)) by lia. lia.
+Qed.
+
+Lemma dec16s_enc : forall l r, Forall is_u16 l -> dec16s (length l) (flat_map enc16 l ++ r) = Some (l, r).
+Proof.
+  induction l; intros r F; [reflexivity|]. inversion F; subst.
+  cbn [length flat_map dec16s]. rewrite <- app_assoc, dec16_enc16, IHl by auto. reflexivity.
+Qed.
+
+Lemma decpairs_enc : forall (l : list (Z * Z)) r, Forall (fun p => is_u16 (fst p) /\ is_u16 (snd p)) l ->
+  decpairs (length l) (flat_map (fun p => enc16 (fst p) ++ enc16 (snd p)) l ++ r) = Some (l, r).
+Proof.
+  induction l as [|[t rf] l]; intros r F; [reflexivity|]. inversion F as [|? ? [A B] F']; subst.
+  cbn [length flat_map decpairs fst snd]. rewrite <- !app_assoc, dec16_enc16 by auto.
+  rewrite dec16_enc16, IHl by auto. reflexivity.
+Qed.
+
+Lemma take_app : forall (l r : bytes), take (length l) (l ++ r) = Some (l, r).
+Proof.
+  intros. unfold take. rewrite app_length.
+  destruct (Nat.ltb_spec (length l + length r) (length l)); [lia|].
+  rewrite firstn_app, Nat.sub_diag, firstn_all, firstn_O, app_nil_r.
+  rewrite skipn_app, Nat.sub_diag, skipn_all. reflexivity.
+Qed.
+
+Lemma cstr_id : forall s, Forall is_char s -> cstr s = s.
+Proof.
+  induction s; intros F; [reflexivity|]. inversion F as [|? ? [A B] F']; subst. cbn [cstr].
+  destruct (Z.eqb_spec a 0); [lia|]. f_equal. auto.
+Qed.
+
+Lemma skipn_last5 : forall (l : list Z) a b c d e,
+  skipn (length (l ++ [a; b; c; d; e]) - 5) (l ++ [a; b; c; d; e]) = [a; b; c; d; e].
+Proof.
+  intros. rewrite app_length. cbn [length]. replace (length l + 5 - 5)%nat with (length l) by lia.
+  rewrite skipn_app, Nat.sub_diag, skipn_all. reflexivity.
+Qed.
+
+(** what a name looks like after a write / read cycle: the empty string is stored as "no name" *)
+Definition norm (o : option bytes) : option bytes :=
+  match o with Some (x :: r) => Some (x :: r) | _ => None end.
+
+Definition name_wf (o : option bytes) : Prop :=
+  forall s, o = Some s -> Forall is_char s /\ zlen s <= 65535.
+
+Lemma opt_name_enc : forall o r, name_wf o ->
+  let nm := cstr (opt_bytes o) in
+  dec16 (enc16 (w16 (zlen nm)) ++ firstn (Z.to_nat (w16 (zlen nm))) nm ++ r) = Some (zlen nm, nm ++ r) /\
+  opt_name (zlen nm) (nm ++ r) = Some (norm o, r).
+Proof.
+  intros o r W nm.
+  assert (Hs : nm = opt_bytes o /\ zlen nm <= 65535).
+  { unfold nm. destruct o as [s|]; cbn [opt_bytes].
+    - destruct (W s eq_refl) as [A B]. rewrite cstr_id by auto. auto.
+    - split; [reflexivity | unfold zlen; simpl; lia]. }
+  destruct Hs as [Hs Hl].
+  assert (0 <= zlen nm) by (unfold zlen; lia).
+  assert (Hw : w16 (zlen nm) = zlen nm) by (unfold w16; apply Z.mod_small; lia).
+  rewrite Hw. replace (Z.to_nat (zlen nm)) with (length nm) by (unfold zlen; symmetry; apply Nat2Z.id).
+  rewrite firstn_all. split; [apply dec16_enc16; unfold is_u16; lia|].
+  unfold opt_name. destruct (Z.eqb_spec (zlen nm) 0) as [E|E].
+  - assert (nm = []) by (destruct nm; [reflexivity|unfold zlen in E; simpl in E; lia]).
+    rewrite H0. cbn [app]. f_equal. f_equal. rewrite Hs in H0. destruct o as [s|]; cbn in *; subst; reflexivity.
+  - replace (Z.to_nat (zlen nm)) with (length nm) by (unfold zlen; symmetry; apply Nat2Z.id).
+    rewrite take_app. f_equal. f_equal.
+    rewrite Hs. destruct o as [s|]; cbn [opt_bytes] in *.
+    + destruct (W s eq_refl) as [A B]. rewrite cstr_id by auto.
+      subst nm. rewrite cstr_id in E by auto. destruct s; [unfold zlen in E; simpl in E; lia|reflexivity].
+    + subst nm. unfold zlen in E. simpl in E. lia.
+Qed.
+
+Record WFpack (g : VGROUP) : Prop := mkWFpack {
+  wp_wf    : WF g;
+  wp_tag   : Forall is_u16 (firstn (Z.to_nat (nvelt g)) (tag g));
+  wp_ref   : Forall is_u16 (firstn (Z.to_nat (nvelt g)) (ref g));
+  wp_name  : name_wf (vgname g);
+  wp_class : name_wf (vgclass g);
+  wp_ex    : is_u16 (extag g) /\ is_u16 (exref g) /\ 0 <= more g <= 32767;
+  wp_flags : 0 <= flags g < 4294967296;
+  wp_attrs : 0 <= nattrs g < 2147483648 /\ nattrs g = zlen (alist g) /\
+             Forall (fun p => is_u16 (fst p) /\ is_u16 (snd p)) (alist g);
+  wp_noatt : Z.land (flags g) VG_ATTR_SET = 0 -> nattrs g = 0 /\ alist g = [];
+  wp_ver   : 0 <= version g <= 4 /\ (flags g = 0 -> version g <> 4) }.
+
+(** the in-memory vgroup Load_vfile builds from the record Vdetach wrote *)
+Definition reloaded (g : VGROUP) : VGROUP :=
+  let n := Z.to_nat (nvelt g) in
+  let m := if MAXNVELT <? nvelt g then nvelt g else MAXNVELT in
+  mkVG (oref g) (nvelt g) m (agrow (firstn n (tag g)) m) (agrow (firstn n (ref g)) m)
+       (norm (vgname g)) (norm (vgclass g)) (extag g) (exref g) (flags g) (nattrs g) (alist g)
+       (fst (vpackvg g)) (more g) false false.
+
+Lemma pack_roundtrip_lemma : forall g, WFpack g -> vunpackvg (oref g) (snd (vpackvg g)) = Some (reloaded g).
+Proof.
+  intros g [W Ft Fr Wn Wc (Xt & Xr & Xm) Hf (Na & Nl & Fa) Hno (Hv & Hv4)].
+  pose proof W as [Lt Lr Hn Hm Hu].
+  unfold vpackvg. cbn [snd].
+  set (n := Z.to_nat (nvelt g)).
+  set (ver := if negb (flags g =? 0) && (version g <? VSET_NEW_VERSION) then VSET_NEW_VERSION else version g).
+  set (FL := if flags g =? 0 then []
+             else enc32 (flags g) ++
+                  (if Z.land (flags g) VG_ATTR_SET =? 0 then []
+                   else enc32 (nattrs g) ++
+                        flat_map (fun p => enc16 (fst p) ++ enc16 (snd p)) (firstn (Z.to_nat (nattrs g)) (alist g)))).
+  set (nm := cstr (opt_bytes (vgname g))). set (cl := cstr (opt_bytes (vgclass g))).
+  assert (Hver : 0 <= ver <= 4 /\ (ver = VSET_NEW_VERSION <-> flags g <> 0)).
+  { unfold ver, VSET_NEW_VERSION. destruct (Z.eqb_spec (flags g) 0) as [E|E]; cbn [negb andb].
+    - split; [lia|]. split; intro; [exfalso; apply (Hv4 E); auto | contradiction].
+    - destruct (Z.ltb_spec (version g) 4); split; try lia; split; intro; auto; lia. }
+  destruct Hver as [Hver Hver4].
+  set (T5 := enc16 ver ++ enc16 (more g) ++ [0]).
+  set (buf := enc16 (nvelt g) ++ _).
+  (* the trailer *)
+  assert (Htail : exists L, buf = L ++ T5).
+  { unfold buf. eexists. rewrite !app_assoc. reflexivity. }
+  destruct Htail as [L HL].
+  unfold vunpackvg.
+  assert (Hlen : (length buf <? 5)%nat = false).
+  { apply Nat.ltb_ge. rewrite HL, app_length. unfold T5, enc16. simpl. lia. }
+  rewrite Hlen.
+  assert (Hsk : skipn (length buf - 5) buf = T5).
+  { rewrite HL. unfold T5, enc16. cbn [app]. apply skipn_last5. }
+  rewrite Hsk. unfold T5. rewrite dec16_enc16 by (unfold is_u16; lia).
+  rewrite dec16_enc16 by (unfold is_u16; lia).
+  assert (Sv : s16 ver = ver) by (unfold s16; destruct (Z.ltb_spec ver 32768); lia).
+  assert (Sm : s16 (more g) = more g) by (unfold s16; destruct (Z.ltb_spec (more g) 32768); lia).
+  rewrite Sv, Sm.
+  replace (ver <=? 4) with true by (symmetry; apply Z.leb_le; lia). cbn [negb].
+  (* the body, field by field *)
+  unfold buf. rewrite dec16_enc16 by (unfold is_u16; lia).
+  assert (Ln : length (firstn n (tag g)) = Z.to_nat (nvelt g)) by (rewrite firstn_length; unfold n; lia).
+  assert (Ln' : length (firstn n (ref g)) = Z.to_nat (nvelt g)) by (rewrite firstn_length; unfold n; lia).
+  rewrite <- Ln at 1. rewrite dec16s_enc by auto.
+  rewrite <- Ln' at 1. rewrite dec16s_enc by auto.
+  destruct (opt_name_enc (vgname g) (enc16 (w16 (zlen cl)) ++ firstn (Z.to_nat (w16 (zlen cl))) cl ++
+             enc16 (extag g) ++ enc16 (exref g) ++ FL ++ T5) Wn) as [N1 N2].
+  fold nm in N1, N2. rewrite N1, N2.
+  destruct (opt_name_enc (vgclass g) (enc16 (extag g) ++ enc16 (exref g) ++ FL ++ T5) Wc) as [C1 C2].
+  fold cl in C1, C2. rewrite C1, C2.
+  rewrite dec16_enc16 by auto. rewrite dec16_enc16 by auto.
+  unfold reloaded. unfold vpackvg. cbn [fst]. fold ver. fold n.
+  destruct (Z.eqb_spec ver VSET_NEW_VERSION) as [E4|E4].
+  - (* version 4: flags present *)
+    assert (Fnz : flags g <> 0) by (apply Hver4; auto).
+    unfold FL. destruct (Z.eqb_spec (flags g) 0); [contradiction|].
+    rewrite <- app_assoc, dec32_enc32 by lia.
+    destruct (Z.eqb_spec (Z.land (flags g) VG_ATTR_SET) 0) as [A0|A0].
+    + destruct (Hno A0) as [Z1 Z2]. rewrite Z1, Z2. reflexivity.
+    + rewrite <- !app_assoc, dec32_enc32 by lia.
+      replace (2147483648 <=? nattrs g) with false by (symmetry; apply Z.leb_gt; lia).
+      assert (La : Z.to_nat (nattrs g) = length (alist g)) by (rewrite Nl; unfold zlen; apply Nat2Z.id).
+      rewrite La, firstn_all, decpairs_enc by auto. reflexivity.
+  - (* version <= 3: no flags *)
+    assert (Fz : flags g = 0).
+    { destruct (Z.eq_dec (flags g) 0); auto. exfalso. apply E4. apply Hver4. auto. }
+    assert (A0 : Z.land (flags g) VG_ATTR_SET = 0) by (rewrite Fz; reflexivity).
+    destruct (Hno A0) as [Z1 Z2]. rewrite Fz, Z1, Z2. reflexivity.
+Qed.
